@@ -174,6 +174,12 @@ func (w *verifC32World) change(kind int, id raft.ServerID, addr raft.ServerAddre
 		c.err = verifC32ErrOther
 	default:
 		next, err := verifC32Next(w.servers, kind, id, addr)
+		if verifC32RealNext != nil {
+			rn, rerr := verifC32RealNext(w.servers, kind, id, addr)
+			if (rerr == nil) != (err == nil) || (err == nil && !verifC32SameList(rn, next)) {
+				panic("verif C32: the raft model disagrees with hashicorp/raft nextConfiguration")
+			}
+		}
 		if err != nil {
 			c.err = err
 		} else {
@@ -246,7 +252,11 @@ func verifC32RaftBootstrapCluster(r *raft.Raft, conf raft.Configuration) raft.Fu
 	case w.hasState:
 		c.err = raft.ErrCantBootstrap
 	default:
-		if err := verifC32Check(conf.Servers); err != nil {
+		err := verifC32Check(conf.Servers)
+		if verifC32RealCheck != nil && (verifC32RealCheck(conf.Servers) == nil) != (err == nil) {
+			panic("verif C32: the raft model disagrees with hashicorp/raft checkConfiguration")
+		}
+		if err != nil {
 			c.err = err
 		} else {
 			w.servers = verifC32Clone(conf.Servers)
@@ -269,6 +279,24 @@ func verifC32LookupHost(host string) ([]string, error) {
 // native replay: installs / removes raft.VerifHooks (set by hooks_test.go; nil in the symbolic run)
 var verifC32HooksInstall func()
 var verifC32HooksRemove func()
+
+// native replay: the REAL nextConfiguration / checkConfiguration of hashicorp/raft (exported by the
+// patched api.go, set by hooks_test.go; nil in the symbolic run). Every model step of a natively
+// replayed path is compared with them; a disagreement is a model error (panic), not a finding.
+var verifC32RealNext func(cur []raft.Server, kind int, id raft.ServerID, addr raft.ServerAddress) ([]raft.Server, error)
+var verifC32RealCheck func(servers []raft.Server) error
+
+func verifC32SameList(a, b []raft.Server) bool {
+	if len(a) != len(b) {
+		return false
+	}
+	for i := range a {
+		if a[i] != b[i] {
+			return false
+		}
+	}
+	return true
+}
 
 // ---------------------------------------------------------------------------------------------
 // scenario
@@ -503,6 +531,7 @@ func (sc *verifC32Scenario) join(step int, mode int, ids, addrs []string) {
 	nAddr, oldByAddr := verifC32CountAddr(before, addr)
 	identical := nID == 1 && nAddr == 1 && oldByID == oldByAddr
 
+	ignored0 := s.numIgnoredJoins
 	err := s.Join(&proto.JoinRequest{Id: id, Address: addr, Voter: voter})
 
 	after := w.servers
@@ -565,8 +594,20 @@ func (sc *verifC32Scenario) join(step int, mode int, ids, addrs []string) {
 			if nID == 0 && nAddr == 0 {
 				verifAssert("C32-join-of-a-new-node-succeeds", false)
 			}
-			if nID == 1 && nAddr == 0 && id != string(w.self) {
+			otherVoters := 0
+			for _, b := range before {
+				if b.Suffrage == raft.Voter && string(b.ID) != id {
+					otherVoters++
+				}
+			}
+			if nID == 1 && nAddr == 0 && id != string(w.self) && otherVoters > 0 {
 				verifAssert("C32-rejoin-with-a-new-address-succeeds", false)
+			}
+			if nID == 0 && nAddr == 1 {
+				// observation, not an obligation: today a NEW node that reuses the address of another
+				// member is always refused (Join removes the joining ID, not the holder of the address,
+				// and raft then refuses the duplicate address); uniqueness holds either way
+				verifReach("join-new-id-reusing-address-refused")
 			}
 		}
 		return
@@ -579,7 +620,7 @@ func (sc *verifC32Scenario) join(step int, mode int, ids, addrs []string) {
 		verifReach("rejoin-identical-is-a-no-op")
 		verifAssert("C32-identical-rejoin-changes-nothing", verifC32SameSet(before, after))
 		verifAssert("C32-identical-rejoin-asks-nothing-of-raft", len(calls) == 0)
-		verifAssert("C32-identical-rejoin-is-counted", s.numIgnoredJoins == 1)
+		verifAssert("C32-identical-rejoin-is-counted", s.numIgnoredJoins == ignored0+1)
 		return
 	}
 	n1, e1 := verifC32CountID(after, id)
@@ -861,6 +902,9 @@ func VerifC32Sequence() {
 		}
 		if len(sc.w.servers) > 3 {
 			verifReach("configuration-of-more-than-3-servers")
+		}
+		if n, _ := verifC32CountID(sc.w.servers, string(sc.w.self)); n == 0 {
+			break // this node removed itself: it is no leader any more, nothing further is accepted
 		}
 	}
 }
